@@ -263,7 +263,8 @@ def gen_formula(g, dv, t, limit_ref=None, kinds=None):
   rng = g.rng
   kinds = list(kinds or g.cfg.get("formula_kinds",
                ["arith", "arith", "str", "ref", "ref", "reflist", "lookup", "lookup", "lookupone",
-                "count", "all", "twopath", "twopath", "contains", "find", "prevnext"]))
+                "count", "all", "twopath", "twopath", "contains", "find", "prevnext", "lazy",
+                "swallow"]))
   rng.shuffle(kinds)
   own = _earlier(dv, t, limit_ref)
   for kind in kinds:
@@ -274,6 +275,31 @@ def gen_formula(g, dv, t, limit_ref=None, kinds=None):
         b = rng.choice(nums)
         k = rng.choice([0, 1, 2, 10])
         return "($%s or 0) + ($%s or 0) + %d" % (a.colId, b.colId, k)
+    elif kind == "lazy":
+      # column references inside a lambda: the lazily evaluated arguments of IF/IFERROR are
+      # wrapped into lambdas by the code generator, and users write lambdas themselves
+      nums = [c for c in own if _numeric(c)]
+      if nums:
+        a = rng.choice(nums).colId
+        b = rng.choice(nums).colId
+        return rng.choice([
+          "IF(($%s or 0) > 1, ($%s or 0) + 1, ($%s or 0) - 1)" % (a, b, a),
+          "IFERROR(10 / ($%s or 0), $%s)" % (a, b),
+          "(lambda v: v + ($%s or 0))(rec.%s or 0)" % (a, b),
+          "IF(True, rec.%s, $%s)" % (a, b),
+        ])
+    elif kind == "swallow":
+      # a formula that swallows whatever reading another formula column raises (the engine's own
+      # "not computed yet" signal included) and then reads on
+      fcols = [c for c in own if c.isFormula and c.formula]
+      if fcols and len(own) >= 2:
+        f = rng.choice(fcols).colId
+        c2 = rng.choice([c for c in own if c.colId != f]).colId
+        return rng.choice([
+          "x = IFERROR($%s, -1)\ny = $%s\nx if isinstance(x, (int, float, str)) else 0" % (f, c2),
+          "try:\n  x = $%s\nexcept Exception:\n  x = -1\ny = $%s\nx if isinstance(x, (int, float, str)) else 0" % (f, c2),
+          "x = ISERROR($%s)\ny = $%s\n(x, y is None)" % (f, c2),
+        ])
     elif kind == "str":
       # not on reference columns: str(record) embeds the table id, which a table rename changes
       plain = [c for c in own if c.pure not in ("Ref", "RefList") and "lookupOne" not in c.formula]
@@ -895,7 +921,21 @@ def op_derived_trigger(g, dv, protected):
            {"type": "Int", "isFormula": False, "formula": f, "recalcWhen": g.rng.choice([2, 2, 0])}]]
 
 
+def op_ref_trigger(g, dv, protected):
+  """Give an existing Ref/RefList data column a trigger formula (a default-value formula): the
+  column still holds stored references, which every clean-up must keep treating as data."""
+  cands = [(t, c) for t in data_tables(dv) for c in t.user_cols()
+           if c.is_data and not c.formula and c.pure in ("Ref", "RefList")
+           and not c.reverseCol and not c.summarySourceCol]
+  if not cands:
+    return None
+  t, c = g.rng.choice(cands)
+  return [["ModifyColumn", t.tableId, c.colId, {"formula": g.rng.choice(["value", "None", "$%s" % c.colId])}],
+          ["UpdateRecord", "_grist_Tables_column", c.ref, {"recalcWhen": g.rng.choice([0, 2])}]]
+
+
 OPS = {
+  "ref_trigger": op_ref_trigger,
   "derived_trigger": op_derived_trigger,
   "add_records": op_add_records,
   "update_records": op_update_records,
@@ -934,7 +974,7 @@ DEFAULT_WEIGHTS = {
   "add_view_section": 1, "add_summary": 3, "update_summary": 2, "detach_summary": 1,
   "add_summary_formula": 1, "remove_view_things": 1, "add_view": 1, "page_indent": 1, "set_sort": 1,
   "add_reverse": 1, "display_formula": 1, "add_rule": 1, "duplicate_table": 1,
-  "trigger_column": 1, "derived_trigger": 0,
+  "trigger_column": 1, "derived_trigger": 0, "ref_trigger": 0,
 }
 
 
